@@ -159,3 +159,35 @@ func paramDeps(f *ssa.Function, e *Expr) bool {
 	}
 	return e.Any(func(x *Expr) bool { return x.Op == "param" && x.Name != recv })
 }
+
+// OriginsUpTo instantiates e (in fn's terms) along every direct-call chain root→…→fn and
+// returns it in root's terms.
+func (w *World) OriginsUpTo(fn *ssa.Function, e *Expr, root *ssa.Function, maxDepth int) []Up {
+	within := w.Reachable([]*ssa.Function{root})
+	var out []Up
+	var rec func(f *ssa.Function, e *Expr, chain []ssa.Instruction, depth int, seen map[*ssa.Function]bool)
+	rec = func(f *ssa.Function, e *Expr, chain []ssa.Instruction, depth int, seen map[*ssa.Function]bool) {
+		if f == root {
+			out = append(out, Up{Top: f, Chain: chain, E: e})
+			return
+		}
+		if depth >= maxDepth || seen[f] {
+			return
+		}
+		seen[f] = true
+		for _, ed := range w.callers[f] {
+			if ed.Kind != "static" && ed.Kind != "invoke" {
+				continue
+			}
+			if _, ok := within[ed.From]; !ok {
+				continue
+			}
+			call := ed.Site.(ssa.CallInstruction)
+			en := w.callEnv(f, call, nil)
+			rec(ed.From, Subst(e, en.params), append([]ssa.Instruction{ed.Site}, chain...), depth+1, seen)
+		}
+		delete(seen, f)
+	}
+	rec(fn, e, nil, 0, map[*ssa.Function]bool{})
+	return out
+}
